@@ -1,12 +1,14 @@
 #!/bin/sh
 # tools/try_seed.sh <seed name, e.g. C07-m3> [<ID> ...] : applies a seeded change in a scratch worktree of /repo HEAD (never to /repo
 # itself), runs the quick (or $TIER) checks against it through VERIF_REPO, removes the worktree. Evidence files are restored.
+# With VERIF_SNAP=<dir> the checks of that copy of /verif are used (tools/seed_matrix.sh makes one, so that /verif can be edited meanwhile).
 seed="$1"; shift
 ids="$*"; [ -z "$ids" ] && ids="${seed%-*}"
+V="${VERIF_SNAP:-/verif}"
 wt=$(mktemp -d /tmp/tryseed-XXXXXX); rmdir "$wt"
 git -C /repo worktree add --detach "$wt" HEAD >/dev/null 2>&1 || exit 3
 (cd "$wt" && git apply "/verif/seeded/$seed/patch.diff") || { echo "$seed: APPLY FAILED"; git -C /repo worktree remove --force "$wt"; exit 3; }
-cd /verif
+cd "$V"
 for id in $ids; do
   cp evidence/$id.json /tmp/ev.$$.json 2>/dev/null
   echo "$seed -> $id: $(VERIF_REPO=$wt bin/check $id --tier ${TIER:-quick} 2>&1 | grep 'OK (\|violation(s)\|INFRA' | head -2 | tr '\n' ' ')"
